@@ -1501,6 +1501,21 @@ class Models(object):
     def _minmax(self, args, kw, is_min):
         if kw:
             raise Undecided("min/max with key")
+        if len(args) == 1 and isinstance(args[0], SSeq):
+            # min / max over an abstract sequence of integers: a fresh value bounded by every element and attained
+            q = args[0]
+            probe = q.elem(z3.Int("k!mm"))
+            if not isinstance(probe, SInt):
+                raise Undecided("min/max over an abstract sequence of non-integers")
+            if not self.ctx.branch(q.length > 0, "minmax-nonempty"):
+                raise ValueError("%s() arg is an empty sequence" % ("min" if is_min else "max"))
+            m = self.ctx.fresh_int("min" if is_min else "max")
+            k, w = z3.Int("k!mm"), self.ctx.fresh_int("argm")
+            ek = q.elem(k).e
+            self.ctx.assume(z3.ForAll([k], z3.Implies(z3.And(k >= 0, k < q.length), (m <= ek) if is_min else (m >= ek))))
+            self.ctx.assume(z3.And(w >= 0, w < q.length, m == q.elem(w).e))
+            self.used("min/max over an abstract integer sequence (bounded by all, attained by one)")
+            return SInt(m)
         items = list(self.interp.iterate(args[0])) if len(args) == 1 else list(args)
         if not has_sym(items):
             return (min if is_min else max)(items)
